@@ -31,7 +31,7 @@ OBS_PROPS = {
   "div": ["backgroundColor", "visibility"],
   "p": ["backgroundColor", "visibility", "textAlign"],
   "span": ["color", "backgroundColor", "fontStyle", "fontWeight", "visibility", "wrapOption"],
-  "region": ["backgroundColor", "displayAlign", "showBackground", "visibility"],
+  "region": ["backgroundColor", "displayAlign", "showBackground", "visibility", "opacity"],
 }
 
 
@@ -370,6 +370,8 @@ def token(value):
     return value.value
   if isinstance(value, bool):
     return "true" if value else "false"
+  if isinstance(value, (int, float)):
+    return "%g" % value
   return repr(value)
 
 
